@@ -127,3 +127,66 @@ def _policy_replay_plan(ob):
         cases = [{'driver': 'quic_client_cert_policy', 'args': {'policy': p, 'client_cert': c}} for p, c in (('required', 'none'), ('required', 'valid'), ('optional', 'none'), ('none', 'none'))]
         return 'quic', cases, lambda o: o.get('policy') == 'required' and o.get('client_cert') == 'none' and o.get('exchanged') is True
     return None
+
+
+def spec_client_trust_roots(ck):
+    """a connector's TLS trust: "no tunnel through an upstream whose certificate does not chain to the configured CA".  The
+    store of trusted roots a TlsClientConfig builds holds the public web roots only when NO ca is configured -- a configured ca
+    file from which no certificate could be read is not "no ca" (it must be refused, or trust nothing)."""
+    cands = [f for f in ck.db.by_method.get('root_store', []) if f.params and 'TlsClientConfig' in f.params[0][1]]
+    if len(cands) != 1:
+        ck.add('C07/tls/client-trust-roots', 'undecided', 'anchor_missing: %d candidates for TlsClientConfig::root_store' % len(cands))
+        return
+    fn = ck.target(cands[0])
+    fields = ck.si.structs.get('TlsClientConfig', [])
+    if 'ca' not in fields:
+        ck.add('C07/tls/client-trust-roots', 'undecided', 'anchor_missing: TlsClientConfig.ca')
+        return
+    label = 'C07/tls/the-public-roots-are-trusted-only-when-no-ca-is-configured'
+    for ncerts in (0, 1, 2):
+        ex = ck.engine(loop_bound=5, call_depth=8)
+        ex.benign_havoc = harness.IRRELEVANT
+        st = State()
+        has = z3.BitVec('ca_configured', 64)
+        ex.assume(st, z3.ULT(has, BV(2, 64)))
+        loads = z3.Bool('ca_file_readable')
+        cfg = Agg('TlsClientConfig', dict((i, (Agg('Option', {}, has, {1: {0: Opaque('PathBuf', 'ca-path')}}, ex.si.enums['Option']) if n == 'ca' else
+                                               (Bool(z3.Bool('insecure')) if n == 'insecure' else (C.mk_option(ex, None) if n in ('auth', 'populated') else Opaque(n, 'cfg_' + n)))))
+                                          for i, n in enumerate(fields)))
+
+        def load_certs(ctx, ncerts=ncerts):
+            ctx.st.trace.append(('ca-file-read',))
+            items = SeqV.from_items([Opaque('Certificate', 'ca-cert-%d' % k) for k in range(ncerts)], 'Certificate', 'vec')
+            return Agg('Result', {}, simp(z3.If(loads, BV(0, 64), BV(1, 64))), {0: {0: items}, 1: {0: Opaque('easy_error::Error', 'e')}}, ctx.ex.si.enums['Result'])
+
+        def public_roots(ctx):
+            ctx.st.trace.append(('public-roots-trusted',))
+            return UNIT
+
+        def add(ctx):
+            ctx.st.trace.append(('root-added',))
+            okb = z3.Bool('cert%d_is_a_usable_trust_anchor' % len([e for e in ctx.st.trace if e[0] == 'root-added']))
+            return Agg('Result', {}, simp(z3.If(okb, BV(0, 64), BV(1, 64))), {0: {0: UNIT}, 1: {0: Opaque('webpki::Error', 'e')}}, ctx.ex.si.enums['Result'])
+        for rx, f in ((r'(?:^|::)load_certs::<', load_certs), (r'RootCertStore::add_server_trust_anchors::<', public_roots), (r'RootCertStore::add$', add),
+                      (r'RootCertStore::empty$', lambda ctx: Agg('RootCertStore', {}))):
+            ex.overrides.append((re.compile(rx), f))
+        ex.inputs = {'ca_configured': has, 'ca_file_readable': loads, 'certificates_in_ca_file': Int(BV(ncerts, 64), 64, False)}
+        finals = ex.call_fn(st, fn, [Ref(st.alloc(cfg), ())])
+        n = 0
+        for s in finals:
+            if s.status != 'returned' or _is_err_concrete(s.ret):
+                continue
+            ok, _ = _ok_payload(s.ret)
+            n += 1
+            public = ('public-roots-trusted',) in s.trace
+            ex.prove(s, label, z3.Implies(z3.And(ok, z3.BoolVal(public)), has == BV(0, 64)))
+            ex.prove(s, 'C07/tls/a-configured-ca-is-what-the-store-holds', z3.Implies(z3.And(ok, has == BV(1, 64)), z3.BoolVal(len([e for e in s.trace if e[0] == 'root-added']) == ncerts)))
+        if not n:
+            ck.add('C07/tls/client-trust-roots/reachability', 'vacuous', 'root_store never returned Ok in the model (%d certificates)' % ncerts)
+        for f in ex.findings:
+            if not hasattr(f, 'target'):
+                f.target = 'TlsClientConfig::root_store'
+        ck.absorb(ex, 'TlsClientConfig::root_store (%d certificates in the ca file)' % ncerts, finals)
+    ck.plans.append(lambda ob: ('tls', {'driver': 'ca_without_certificates', 'args': {}}, lambda o: o.get('store_built') is True and (o.get('roots_trusted') or 0) > 0)
+                    if (ob.target or '') == 'TlsClientConfig::root_store' else None)
+    ck.bounds['tls-client-roots'] = 'ca absent / configured; the ca file unreadable or holding 0..2 certificates, each usable as a trust anchor or not'
